@@ -118,4 +118,46 @@ def run (shape : List Nat) (init : Array R) (ops : List (Op R)) : List (Branch R
   ops.foldl (fun bs op => bs.flatMap (fun b => stepOp nsq negligible shape b op)) [{ state := init, records := [], cw := 1 }]
 
 end
+
+/-! ### density-matrix evolution (no branching): `ρ ↦ Σₖ Kₖ ρ Kₖ†`
+
+`ρ` is stored as a tensor of shape `shape ++ shape` (row axes, then column axes); a Kraus operator acts with
+`K` on the row axes and with its entry-wise conjugate on the column axes. -/
+
+section dm
+variable {R : Type} [Add R] [Mul R] [OfNat R 0] [OfNat R 1] [Inhabited R]
+variable (conj : R → R)
+
+def addArr (a b : Array R) : Array R := Array.ofFn (n := a.size) (fun p => a[p] + b.getD p.val 0)
+
+def applyKrausDM (shape : List Nat) (rho : Array R) (k : Array R) (axes : List Nat) : Array R :=
+  let n := shape.length
+  let left := stepArr (shape ++ shape) rho { matrix := k, axes := axes }
+  stepArr (shape ++ shape) left { matrix := k.map conj, axes := axes.map (· + n) }
+
+/-- Kraus operators `|0…0⟩⟨a|` of a reset of the given dimensions, as flat row-major matrices -/
+def resetKraus (dims : List Nat) : List (Array R) :=
+  let d := shapeSize dims
+  (List.range d).map (fun a => Array.ofFn (n := d * d) (fun p => if p.val / d = 0 ∧ p.val % d = a then 1 else 0))
+
+def stepDM (shape : List Nat) (rho : Array R) : Op R → Array R
+  | .unitary m axes => applyKrausDM conj shape rho m axes
+  | .kraus ks axes =>
+    ks.foldl (fun acc k => addArr acc (applyKrausDM conj shape rho k axes)) (Array.replicate rho.size 0)
+  | .reset axes =>
+    (resetKraus (axes.map (fun a => shape.getD a 1))).foldl
+      (fun acc k => addArr acc (applyKrausDM conj shape rho k axes)) (Array.replicate rho.size 0)
+  | .measure _ axes _ _ =>
+    -- a measurement whose result is ignored dephases the measured qudits
+    let dims := axes.map (fun a => shape.getD a 1)
+    let d := shapeSize dims
+    let projs : List (Array R) := (List.range d).map (fun a =>
+      Array.ofFn (n := d * d) (fun p => if p.val / d = a ∧ p.val % d = a then 1 else 0))
+    projs.foldl (fun acc k => addArr acc (applyKrausDM conj shape rho k axes)) (Array.replicate rho.size 0)
+  | .controlled _ _ => rho
+
+def runDM (shape : List Nat) (rho : Array R) (ops : List (Op R)) : Array R :=
+  ops.foldl (stepDM conj shape) rho
+
+end dm
 end CirqVerif.Circ
